@@ -18,6 +18,7 @@
 #include <cstdio>
 #include <cstdlib>
 #include <deque>
+#include <stdexcept>
 #include <functional>
 #include <iostream>
 #include <map>
@@ -47,8 +48,18 @@ struct cap_channel
         }
         read_cb = cb;
     }
-    void write(bytes data) { written.append(data.begin(), data.end()); }
+    void write(bytes data)
+    {
+        if (fail_next)
+        {
+            // the connection reports an error for this one write
+            fail_next = false;
+            throw std::runtime_error("channel write failed");
+        }
+        written.append(data.begin(), data.end());
+    }
     [[nodiscard]] bool is_alive() const { return alive; }
+    bool fail_next = false;
     void close() {}
     bool alive = true;
     std::deque<byte_storage> queued;
@@ -360,6 +371,7 @@ struct world
     std::map<long, std::unique_ptr<canvas>> canvases;
     std::map<long, held_cell> held;
     std::map<long, terminalpp::string> strings;
+    std::map<long, std::pair<element *, terminalpp::string::iterator>> sheld;
     std::map<long, std::pair<long, std::unique_ptr<screen>>> screens;
     std::map<long, std::unique_ptr<detail::parser>> parsers;
 };
@@ -375,6 +387,26 @@ void do_term(std::ostream &out, world &w, toks &t)
         return;
     }
     auto &to = *w.terms.at(id);
+    if (op == "failnext")
+    {
+        // the channel's next write throws; the operation on the next line is the one
+        // it hits, and the application carries on after catching the exception
+        to.chan.fail_next = true;
+        return;
+    }
+    if (to.chan.fail_next && (op == "elem" || op == "str"))
+    {
+        try
+        {
+            if (op == "elem") to.term << mk_elem(t); else to.term << mk_string(t);
+            out << "NOEXC\n";
+        }
+        catch (std::runtime_error const &) { out << "EXC\n"; }
+        to.chan.fail_next = false;
+        flush_written(out, to);
+        pr_state(out, to);
+        return;
+    }
     if (op == "size") { long a = t.num(), b = t.num(); to.term.set_size({coordinate_type(a), coordinate_type(b)}); }
     else if (op == "elem") { to.term << mk_elem(t); }
     else if (op == "raw") { to.term << write_element(mk_elem(t)); }
@@ -540,6 +572,25 @@ void do_canvas(std::ostream &out, world &w, toks &t)
         if (oc.str() != om.str())
             out << "KRX the region visited through a const canvas differs: " << oc.str().size() << " bytes vs " << om.str().size() << "\n"
                 << oc.str();
+        // a visitor may return something (a flag, a count): it is not the loop's business
+        std::ostringstream ob, oi;
+        for_each_in_region(
+            c,
+            {{coordinate_type(x), coordinate_type(y)}, {coordinate_type(a), coordinate_type(b)}},
+            [&ob](element const &e, coordinate_type cx, coordinate_type cy) {
+                ob << "KR " << cx << " " << cy << " " << pr_elem(e) << "\n";
+                return false;
+            });
+        int visited = 0;
+        for_each_in_region(
+            c,
+            {{coordinate_type(x), coordinate_type(y)}, {coordinate_type(a), coordinate_type(b)}},
+            [&oi, &visited](element const &e, coordinate_type cx, coordinate_type cy) {
+                oi << "KR " << cx << " " << cy << " " << pr_elem(e) << "\n";
+                return visited++;          // 0 for the first cell
+            });
+        if (ob.str() != om.str() || oi.str() != om.str())
+            out << "KRX a visitor that returns a value does not see the whole region\n";
     }
     else out << "ERR unknown canvas op\n";
 }
@@ -590,6 +641,14 @@ void do_markup(std::ostream &out, toks &t)
         auto const b = unhex(t.str());
         std::string const txt(b.begin(), b.end());
         out << "E " << pr_elem(operator""_ete(txt.data(), txt.size())) << "\n";
+    }
+    else if (op == "lookup")
+    {
+        // lookup_character_set on a view of the first <len> bytes of a longer buffer
+        auto const b = unhex(t.str());
+        long const len = t.num();
+        auto const r = lookup_character_set(bytes(b.data(), static_cast<size_t>(len)));
+        out << "LK " << (r ? std::to_string(int(r->value_)) : std::string("-")) << "\n";
     }
     else if (op == "tostring")
     {
@@ -694,10 +753,27 @@ void do_value(std::ostream &out, toks &t)
         // (SH), and the same values each into a stream of its own (SHS)
         std::ostringstream ss;
         std::string separate;
+        // formatting state the HOST program left on its stream (no field width: a width
+        // applies to the next insertion by definition)
+        long const flags = t.num();
+        auto dress = [flags](std::ostream &o) {
+            if (flags & 1) o << std::hex;
+            if (flags & 2) o << std::oct;
+            if (flags & 4) o << std::showpos;
+            if (flags & 8) o << std::showbase;
+            if (flags & 16) o << std::uppercase;
+            if (flags & 32) o << std::left;
+            if (flags & 64) o << std::internal;
+            if (flags & 128) o << std::boolalpha;
+            if (flags & 256) o.fill('*');
+            if (flags & 512) o << std::scientific;
+        };
+        dress(ss);
         long const k = t.num();
         for (long i = 0; i < k; ++i)
         {
             std::ostringstream one;
+            dress(one);
             auto put = [&ss, &one](auto const &v) { ss << v; one << v; };
             std::string const tag = t.str();
             if (tag == "colour") put(mk_colour(t));
@@ -773,6 +849,20 @@ void do_string(std::ostream &out, world &w, toks &t)
     // string::swap, cbegin() and cend() are declared in string.hpp but defined nowhere
     // in the library (a program calling them does not link), so std::swap is used here
     else if (op == "swap") { long o = t.num(); std::swap(w.strings.at(id), w.strings.at(o)); }
+    else if (op == "hold")
+    {
+        // a reference and an iterator to element i, kept while the string is only observed
+        long i = t.num();
+        auto &s = w.strings.at(id);
+        w.sheld[id] = {&s[static_cast<tstr::size_type>(i)], s.begin() + i};
+    }
+    else if (op == "heldset")
+    {
+        long k = t.num();
+        auto const e = mk_elem(t);
+        auto &h = w.sheld.at(id);
+        if (k == 0) *h.first = e; else *h.second = e;
+    }
     else if (op == "dump")
     {
         auto &s = w.strings.at(id);
@@ -782,8 +872,10 @@ void do_string(std::ostream &out, world &w, toks &t)
         auto const r = to_string(cs);
         out << "TS " << hex(reinterpret_cast<byte const *>(r.data()), r.size()) << "\n";
         // the other ways of looking at the same elements must agree with const iteration
-        std::vector<element> fwd(cs.begin(), cs.end()), viaidx, viamut(s.begin(), s.end()), viarev(cs.rbegin(), cs.rend()),
-            viamrev(s.rbegin(), s.rend()), viac(fwd);
+        // (only const observers here: a client that holds a reference or an iterator
+        // while it observes the string touches no mutable accessor in between)
+        std::vector<element> fwd(cs.begin(), cs.end()), viaidx, viamut(fwd), viarev(cs.rbegin(), cs.rend()),
+            viamrev(viarev), viac(fwd);
         for (tstr::size_type i = 0; i < cs.size(); ++i) viaidx.push_back(cs[i]);
         std::reverse(viarev.begin(), viarev.end());
         std::reverse(viamrev.begin(), viamrev.end());
@@ -792,6 +884,16 @@ void do_string(std::ostream &out, world &w, toks &t)
         if (viamut != fwd || viac != fwd) out << "ZX begin()/cbegin() disagree with const iteration\n";
         if (viarev != fwd || viamrev != fwd) out << "ZX reverse iteration disagrees with forward iteration\n";
         if (!(cs == tstr(fwd.begin(), fwd.end()))) out << "ZX the string differs from a string built from its own elements\n";
+    }
+    else if (op == "mdump")
+    {
+        // the non-const ways of walking the string agree with the const ones
+        auto &s = w.strings.at(id);
+        tstr const &cs = s;
+        std::vector<element> fwd(cs.begin(), cs.end()), viamut(s.begin(), s.end()), viamrev(s.rbegin(), s.rend()), viaidx;
+        for (tstr::size_type i = 0; i < s.size(); ++i) viaidx.push_back(s[i]);
+        std::reverse(viamrev.begin(), viamrev.end());
+        if (viamut != fwd || viamrev != fwd || viaidx != fwd) out << "ZX begin()/rbegin()/operator[] on the string disagree with const iteration\n";
     }
     else out << "ERR unknown string op\n";
 }
